@@ -149,7 +149,7 @@ Qed.
 
 Definition spec_tail (ub su unrooted : bool) (t : tree) : tree :=
   let t2 := if su then spec_su t else t in
-  if ub then spec_encode true true unrooted t2 else t2.
+  if ub then spec_encode su true unrooted t2 else t2.
 
 Lemma leaf_taxa_spec_tail ub su u t : leaf_taxa (spec_tail ub su u t) = leaf_taxa t.
 Proof.
@@ -158,17 +158,17 @@ Qed.
 
 Lemma tail_wf (ub su : bool) h t :
   WFt h t ->
-  exists h', hbind (hbind (HOk h) (fun h1 => if su then suppress_unifurcations h1 else HOk h1)) (ub_tail ub) = HOk h' /\
+  exists h', hbind (hbind (HOk h) (fun h1 => if su then suppress_unifurcations h1 else HOk h1)) (ub_tail_su ub su) = HOk h' /\
     WFt h' (spec_tail ub su (not_rooted h) t) /\ next h' = next h /\ rooted_ok h h'.
 Proof.
-  intro W. simpl hbind. unfold spec_tail, ub_tail.
+  intro W. simpl hbind. unfold spec_tail, ub_tail_su.
   assert (S1 : exists h1, (if su then suppress_unifurcations h else HOk h) = HOk h1 /\
                 WFt h1 (if su then spec_su t else t) /\ next h1 = next h /\ rooted h1 = rooted h).
   { destruct su.
     - destruct (suppress_unifurcations_wf h t W) as [h1 [E1 [W1 [N1 [R1 _]]]]]. eauto.
     - exists h. auto. }
   destruct S1 as [h1 [E1 [W1 [N1 R1]]]]. rewrite E1. simpl hbind. destruct ub.
-  - destruct (encode_structural_wf true true h1 _ W1) as [h2 [E2 [W2 [N2 R2]]]].
+  - destruct (encode_structural_wf su true h1 _ W1) as [h2 [E2 [W2 [N2 R2]]]].
     exists h2. split; [exact E2|]. unfold not_rooted in *. rewrite R1 in W2.
     split; [exact W2|split; [congruence|]]. unfold rooted_ok in *. rewrite R1 in R2. exact R2.
   - exists h1. split; [reflexivity|split; [exact W1|split; [exact N1|left; exact R1]]].
